@@ -2,6 +2,7 @@
 from __future__ import annotations
 
 import ast
+import re
 import os
 import time
 from typing import Optional
@@ -12,7 +13,7 @@ from .contract import Contract
 from .pyexpr import ExprMixin, PyDictLit
 from .pymatch import MODE_KINDS, MatchMixin, PyPattern
 from .pyvals import (LE_BYTES, LE_VAL, NONE, Exc, IntSeq, NoneVal, PAbs, PyCache, PyComp, PyUnion, PyCallable, PyConst, PyGen, PyKey, PyList, PyLit, PyMap, PyObj, PyOpt, PyRuleSeq, PyStrDict,
-                     PyStrSet, PyTuple, StrSeq, Tok, TokSeq, Val, ValSeq, VAL_AXIOMS, clone, fresh, is_bool, is_int, is_seq,
+                     PyStrSet, PyTuple, StrSeq, Tok, TokSeq, Val, ValSeq, VAL_AXIOMS, NodeAbs, NodeAbsSeq, ident_of, clone, fresh, is_bool, is_int, is_seq,
                      is_str, is_tok, is_val, is_z3, tok_fields, truthy)
 from .pyvc import (VC, St, Tr, Unsupported, dedent, eq, is_keyword, is_soft_keyword, join_lines, lift, str_isspace, str_lower,
                    str_repr, str_rstrip_nl, str_strip, token_named)
@@ -77,6 +78,8 @@ class Executor(MatchMixin, ExprMixin):
         self.assuming = False
         self._id_seen = {}
         self.stats = {"paths": 0, "forks": 0}
+        self.axioms: list = []
+        self._axiom_ids: set = set()
 
     # ------------------------------------------------------------------ infrastructure
     def feasible(self, st, cond) -> bool:
@@ -84,6 +87,7 @@ class Executor(MatchMixin, ExprMixin):
         self._feas.push()
         try:
             self._feas.add(*VAL_AXIOMS)
+            self._feas.add(*self.axioms)
             self._feas.add(*st.pc)
             self._feas.add(cond)
             return self._feas.check() != z3.unsat
@@ -101,7 +105,13 @@ class Executor(MatchMixin, ExprMixin):
         n = self._id_seen.get((short, h), 0) + 1
         self._id_seen[(short, h)] = n
         vid = f"{short}.{kind}.{h}.{n}{suffix}"
-        self.vcs.append(VC(vid, kind, desc, list(st.pc), goal, lineno, fn))
+        self.vcs.append(VC(vid, kind, desc, list(self.axioms) + list(st.pc), goal, lineno, fn))
+
+    def add_axiom(self, a):
+        """definitional axiom of a spec function (recursive definitions over the index of a sequence argument): hypothesis of every later VC"""
+        if a.get_id() not in self._axiom_ids:
+            self._axiom_ids.add(a.get_id())
+            self.axioms.append(a)
 
     def find_function(self, qual: str):
         """'Class.method' | 'func' | 'func.inner'"""
@@ -774,7 +784,7 @@ class Executor(MatchMixin, ExprMixin):
         for a in sorted(attrs) + list(extra_paths):
             self.havoc_path(st, a, "h_")
         if any(isinstance(n, (ast.Yield, ast.YieldFrom)) for b in body for n in ast.walk(b)) and "yielded" in st.env:
-            st.env["yielded"] = fresh("h_yielded", TokSeq)
+            st.env["yielded"] = fresh("h_yielded", st.env["yielded"].sort())
         for c in calls:
             f = c.func
             tgt = None
@@ -1025,6 +1035,7 @@ class Executor(MatchMixin, ExprMixin):
                 continue
             for p2, more in self.fork(st, i < n):
                 if not more:
+                    p2.env["_i"] = i               # after the loop the ghost keeps the number of iterations made (== len of the sequence)
                     out.append((p2, Flow("normal")))
                     continue
                 for p2, x in self.split_union(p2, elem(i)):
@@ -1082,10 +1093,16 @@ class Executor(MatchMixin, ExprMixin):
         out = st.env.get("yielded")
         if out is None:
             out = z3.Empty(TokSeq)
-        if not is_tok(v):
+        if out.sort() == NodeAbsSeq:
+            if not (isinstance(v, PyObj) and all(f in v.fields for f in ("lineno", "col_offset", "end_lineno", "end_col_offset"))):
+                raise Unsupported("yield of something that is not a node with positions")
+            at = st.env.get("_i")
+            v = NodeAbs.mk(v.fields["lineno"], v.fields["col_offset"], v.fields["end_lineno"], v.fields["end_col_offset"],
+                           at if at is not None else z3.IntVal(-1), ident_of(v))
+        elif not is_tok(v):
             raise Unsupported("yield of a non-token")
         n = z3.Length(out)
-        nw = fresh("yielded", TokSeq)
+        nw = fresh("yielded", out.sort())
         jq = z3.Int("yj!q")
         st.assume(z3.Length(nw) == n + 1)
         st.assume(z3.ForAll([jq], z3.Implies(z3.And(jq >= 0, jq < n), nw[jq] == out[jq])))
@@ -1605,6 +1622,28 @@ class Executor(MatchMixin, ExprMixin):
         for m in c.modifies:
             self.havoc_path(st, m, "m_", env)
         results = self.mk(c.returns, "ret", st) if c.returns else [NONE]
+        for r0 in results:
+            if isinstance(r0, PyObj):
+                r0.ident = fresh("id_ret", I)        # an object the callee built or found: not known to be distinct from anything
+        for cond, pn in c.returns_same.items():
+            g = Tr(self.spec_eval(cond, old))
+            st_s = st.clone()
+            if self.feasible(st_s, g):
+                st_s.assume(g)
+                env_s = {k2: clone(v, st_s._memo) for k2, v in env.items()}
+                ss2 = St()
+                ss2.pc, ss2.env, ss2.old = st_s.pc, dict(env_s), old
+                ss2.env["result"] = env_s[pn]
+                self.assuming = True
+                try:
+                    for en in c.ensures:
+                        st_s.assume(Tr(self.spec_eval(en, ss2)))
+                finally:
+                    self.assuming = False
+                out.append((st_s, env_s[pn]))
+            st.assume(z3.Not(g))
+        if c.returns_same and not self.feasible(st, z3.BoolVal(True)):
+            return out
         for idx, res in enumerate(results):
             p = st if idx == len(results) - 1 else st.clone()
             if p is not st:
@@ -1620,8 +1659,9 @@ class Executor(MatchMixin, ExprMixin):
             before = St()
             before.pc = list(p.pc)
             ys = None
+            as_value = c.generator and getattr(self, "gen_as_value", False)
             if c.generator:
-                ys = fresh("ys", TokSeq)
+                ys = fresh("ys", NodeAbsSeq if c.yields == "node" else TokSeq)
                 s2.env["yielded"] = ys
             self.assuming = True
             try:
@@ -1630,7 +1670,9 @@ class Executor(MatchMixin, ExprMixin):
                     p.assume(g)
             finally:
                 self.assuming = False
-            if ys is not None:
+            if ys is not None and as_value:
+                res = ys
+            elif ys is not None:
                 cur = p.env.get("yielded")
                 cur = z3.Empty(TokSeq) if cur is None else cur
                 nw = fresh("yielded", TokSeq)
@@ -1686,6 +1728,21 @@ class Executor(MatchMixin, ExprMixin):
         t = ast.unparse(e.args[1])
         if v is NONE:
             return [(st, z3.BoolVal(False))]
+        if isinstance(v, PyUnion):
+            conds = []
+            for k, a in enumerate(v.alts):
+                e2 = ast.Call(func=e.func, args=[ast.Name(id="__alt__", ctx=ast.Load()), e.args[1]], keywords=[])
+                bak = st.env.get("__alt__", _MISSING)
+                st.env["__alt__"] = a
+                try:
+                    r = self.b_isinstance(e2, st)[0][1]
+                finally:
+                    if bak is _MISSING:
+                        st.env.pop("__alt__", None)
+                    else:
+                        st.env["__alt__"] = bak
+                conds.append(z3.And(v.kind == k, r))
+            return [(st, z3.Or(conds))]
         if isinstance(v, PyLit):
             if t == "bytes":
                 return [(st, v.isbytes)]
@@ -1738,7 +1795,17 @@ class Executor(MatchMixin, ExprMixin):
     def b_list(self, e, st):
         if not e.args:
             return [(st, PyList([]))]
-        return self.eval(e.args[0], st)
+        a = e.args[0]
+        if isinstance(a, ast.Call) and isinstance(a.func, ast.Attribute):
+            gc = self.contract_for_attr(a.func.attr)
+            if gc is not None and gc.generator:
+                # list(<generator function under contract>(...)): the list IS the sequence the callee yields (nothing is yielded by the caller)
+                self.gen_as_value = True
+                try:
+                    return self.eval(a, st)
+                finally:
+                    self.gen_as_value = False
+        return self.eval(a, st)
 
     b_tuple = b_list
 
@@ -1774,13 +1841,19 @@ class Executor(MatchMixin, ExprMixin):
         a = Tr(self.eval1(e.args[0], st))
         if z3.is_false(z3.simplify(a)):
             return [(st, z3.BoolVal(True))]
-        if not z3.is_true(z3.simplify(a)) and not self.feasible(st, a):
-            return [(st, z3.BoolVal(True))]        # the antecedent cannot hold on this path: the consequent need not even be well-typed here
         s2 = St()
         s2.pc = list(st.pc) + [a]
         s2.env = st.env
         s2.old = st.old
-        b = Tr(self.eval1(e.args[1], s2))
+        n_vcs = len(self.vcs)
+        try:
+            b = Tr(self.eval1(e.args[1], s2))
+        except (Unsupported, KeyError, AttributeError):
+            # the consequent is not well-typed here: fine when the antecedent cannot hold on this path (only then is the solver asked)
+            if not z3.is_true(z3.simplify(a)) and not self.feasible(st, a):
+                del self.vcs[n_vcs:]
+                return [(st, z3.BoolVal(True))]
+            raise
         return [(st, z3.Implies(a, b))]
 
     def _quant(self, e, st, universal: bool):
@@ -1831,6 +1904,7 @@ class Executor(MatchMixin, ExprMixin):
         self.cur = c
         self.yield_from_depth = 0
         self.loop_counter = 0
+        self.axioms, self._axiom_ids = [], set()
         qual = c.name.split(":")[1].split("#")[0]
         fn = self.find_function(qual)
         if fn is None:
@@ -1884,7 +1958,7 @@ class Executor(MatchMixin, ExprMixin):
                 self.vc(s, z3.BoolVal(False), "vacuity", "precondition together with the type invariants is satisfiable", fn.lineno)
                 continue
             if c.generator:
-                s.env["yielded"] = z3.Empty(TokSeq)
+                s.env["yielded"] = z3.Empty(NodeAbsSeq if c.yields == "node" else TokSeq)
             old = St()
             memo: dict = {}
             old.env = {k: clone(v, memo) for k, v in s.env.items()}
@@ -2034,6 +2108,18 @@ class Executor(MatchMixin, ExprMixin):
             self.vc(p, z3.BoolVal(False), "post", "function declared to always raise returns normally", fn.lineno)
             return
         p.env["result"] = res
+        for cond, pn in c.returns_same.items():
+            self.vc(p, z3.Implies(Tr(self.spec_eval(cond, p.old)), eq(res, p.old.env[pn]) if isinstance(res, PyObj) and isinstance(p.old.env[pn], PyObj) else z3.BoolVal(False)),
+                    "post", f"returns the argument `{pn}` itself when `{cond}`", fn.lineno)
+        handed_on = any(isinstance(p.old.env.get(pn), PyObj) and z3.is_true(z3.simplify(eq(res, p.old.env[pn]))) for pn in c.returns_same.values()) if isinstance(res, PyObj) else False
+        if c.returns and "obj:" in c.returns and isinstance(res, PyObj) and not handed_on:
+            # call sites model the result by the declared shapes: the value returned must be of one of them
+            names = re.findall(r"obj:([A-Za-z_.]+)", c.returns)
+            pos4 = all(f in res.fields for f in ("lineno", "col_offset", "end_lineno", "end_col_offset"))
+            fits = res.cls in names or ("PosNode" in names and pos4 and res.cls not in self.classes)    # PosNode: a node of a class no caller tells apart
+            if fits and res.cls in names and res.cls in self.classes:
+                fits = all(f in res.fields for f in self.classes[res.cls] if not f.startswith("__"))
+            self.vc(p, z3.BoolVal(bool(fits)), "post", f"the value returned has one of the declared shapes ({c.returns})", fn.lineno)
         for en in c.ensures:
             hints = c.witness.get(en) if getattr(c, "witness", None) else None
             self.witness_hints = hints
